@@ -16,14 +16,30 @@ RULE = sqlmon.RULE_HISTORIES + ' Job DAGs: in-update and cross-update parents, r
 ASSUMPTIONS = sqlmon.COMMON_ASSUMPTIONS
 SHARDS = {'quick': 4, 'thorough': 16}
 TIMEOUT = {'quick': 900, 'thorough': 3600}
-FLOORS = {'scripted_always_run_children_of_failed_parents_checked': 4, 'scripted_children_checked': 40, 'scripted_scenarios': 10, 'scripted_live_parent_commits': 10, 'scripted_mixed_parent_completions': 3, 'jobs_with_parents_observed_live': 100, 'children_cancelled_by_failed_parent': 10, 'histories_free_of_known_patterns': 50}
+FLOORS = {'dependency_edges_compared_with_submission': 300, 'legacy_parent_key_edges_compared': 10, 'scripted_always_run_children_of_failed_parents_checked': 4, 'scripted_children_checked': 40, 'scripted_scenarios': 10, 'scripted_live_parent_commits': 10, 'scripted_mixed_parent_completions': 3, 'jobs_with_parents_observed_live': 100, 'children_cancelled_by_failed_parent': 10, 'histories_free_of_known_patterns': 50}
 
 
 class Deps(Monitor):
     def __init__(self, p):
         self.p = p
+        self.edges_checked = set()
+
+    def reset(self):
+        self.edges_checked = set()
 
     def on_commit(self, v):
+        # the recorded dependency edges are the ones the client submitted (ledger kept by the workload, absolute ids)
+        fz = getattr(self.r, 'fz', None)
+        if fz is not None:
+            for k, want in fz.intended_parents.items():
+                if k in v.jobs and k not in self.edges_checked:
+                    self.edges_checked.add(k)
+                    self.r.ctx.count('dependency_edges_compared_with_submission', max(1, len(want)))
+                    if want and 'parent_ids' in (next((s for pl in fz.plans if pl['batch'] == k[0] and pl['start_job_id'] <= k[1] < pl['start_job_id'] + pl['n_jobs'] for s in [pl['jobs'][k[1] - pl['start_job_id']]]), {})):
+                        self.r.ctx.count('legacy_parent_key_edges_compared')
+                    got = set(v.parents.get(k, ()))
+                    if got != want:
+                        self.r.violation('dependency-edges-differ-from-submission', f'job {k} was submitted with parents {sorted(want)}, job_parents records {sorted(got)}', {'job': list(k), 'submitted': sorted(want), 'recorded': sorted(got)})
         for key, what, wit in oracles.c05(v):
             k = tuple(wit['job'])
             if wit.get('uncommitted'):
